@@ -40,6 +40,7 @@ type run struct {
 	leaves       int
 	nexts        int
 	memberChange bool
+	emptyAtNext  [maxSeats]bool // seat was empty when the last successful Next() returned
 	// concurrent mode
 	sc    *sched
 	hist  []porcupine.Operation
@@ -194,6 +195,9 @@ func (r *run) seqOp(op opSpec) opResult {
 	dBefore := seatID(r.m.Dealer())
 	res := r.exec(op)
 	r.res.Steps++
+	if r.opt.KeepLog {
+		r.res.Log = append(r.res.Log, sim.Mix(sim.HashString(op.Kind+res.Err+res.Panic), uint64(op.Seat+7), uint64(res.Seat+7), uint64(seatID(r.m.Dealer())+7)))
+	}
 	r.judge(op, res)
 	if r.dead {
 		return res
@@ -335,6 +339,11 @@ func (r *run) judgeNext(before []seatView, dBefore int, res opResult) {
 		return
 	}
 	// accepted
+	for i, sv := range after {
+		if i < maxSeats {
+			r.emptyAtNext[i] = !sv.occ
+		}
+	}
 	if waiting < 2 {
 		r.viol("C17", "next-accepted-with-fewer-than-two-players", fmt.Sprintf("Next() succeeded with %d seated non-reserved players", waiting))
 	}
@@ -393,8 +402,15 @@ func (r *run) judgeNext(before []seatView, dBefore int, res opResult) {
 			// on the first two playable seats, and every further playable
 			// seat was let in by this very Next()
 			lateOnly := sb == d && bb == ord[1]
+			passedNow := []int{}
+			if dBefore >= 0 {
+				passedNow = between(dBefore, d, n)
+			}
 			for _, id := range ord[2:] {
-				if inInts(B, id) {
+				// playable before the call, or passed by the button in this
+				// very move (then it had to be let in before the blinds were
+				// chosen): not the recorded finding
+				if inInts(B, id) || inInts(passedNow, id) {
 					lateOnly = false
 				}
 			}
@@ -437,7 +453,10 @@ func (r *run) quiet(E int, hands int, pid int32) {
 		return
 	}
 	r.probe("newcomer-scenario")
-	wasActive := r.seats()[E].active
+	// discriminating fact of the recorded finding: the seat was occupied when
+	// the last hand started and has been vacated since (so it was never
+	// deactivated); a seat that was already empty then must make the newcomer wait
+	vacatedSince := !r.emptyAtNext[E]
 	res := r.seqOp(opSpec{Kind: "join", Seat: E, PID: pid})
 	if r.dead || res.Err != "" {
 		return
@@ -466,7 +485,7 @@ func (r *run) quiet(E int, hands int, pid int32) {
 				continue
 			}
 			sig := "newcomer-dealt-in-before-button-passed"
-			if wasActive {
+			if vacatedSince {
 				sig += ": seat was still active when taken (vacated since the last hand)"
 			}
 			r.viol("C08", sig, fmt.Sprintf("seat %d dealt in with dealer %d -> %d (button has not passed it)", E, dPrev, dNew))
@@ -767,6 +786,9 @@ func (r *run) concRun(id int) bool {
 }
 
 func (r *run) finished(g *gor) {
+	if r.opt.KeepLog {
+		r.res.Log = append(r.res.Log, sim.Mix(sim.HashString(g.op.Kind+g.res.Err+g.res.Panic), uint64(g.id), uint64(g.res.Seat+7), uint64(g.call), uint64(g.ret)))
+	}
 	r.res.Count("op."+g.op.Kind+"."+map[bool]string{true: "ok", false: "refused"}[g.res.Err == "" && g.res.Panic == ""], 1)
 	if g.res.Panic != "" {
 		r.viol("C18", fmt.Sprintf("panic: %s", panicClass(g.op, r.cfg.Max)), fmt.Sprintf("%+v panicked: %s", g.op, g.res.Panic))
